@@ -76,6 +76,26 @@ def install(bsp, cfg):
         if lump is BSP_LUMPS.LEAFWATERDATA:
             return {'op': 'x_water', 'layout': layout, 'texinfo': N.ns(self.texinfo),
                     'items': [{'sz': W.f32bits(x.surface_z), 'mz': W.f32bits(x.min_z), 'texinfo': N.n(x.surface_texinfo)} for x in data]}
+        if lump == b'dprp':
+            from srctools.bsp import DetailPropModel, DetailPropShape
+            props = []
+            for d in data:
+                q = {'f6': [W.f32bits(x) for x in (*d.origin, d.angles.pitch, d.angles.yaw, d.angles.roll)], 'leaf': d.leaf,
+                     'lighting': list(d.lighting), 'styles': d._light_styles[0], 'styleCount': d._light_styles[1], 'sway': d.sway_amount,
+                     'orient': d.orientation.value}
+                if isinstance(d, DetailPropModel):
+                    q['model'] = names.n(d.model)
+                else:
+                    q['rect'] = [W.f32bits(x) for x in (*d.dims_upper_left, *d.dims_lower_right, *d.texcoord_upper_left, *d.texcoord_lower_right)]
+                    q['scale'] = W.f32bits(d.sprite_scale)
+                    if isinstance(d, DetailPropShape):
+                        q.update(cross=bool(d.is_cross), ang=d.shape_angle, size=d.shape_size)
+                props.append(q)
+            return {'op': 'x_detail', 'props': props,
+                    'names': [[i, list(s_.encode('ascii', 'surrogateescape'))] for s_, i in names.ids.items()]}
+        if lump == b'sprp':
+            return {'op': 'x_propidx', 'visleafs': N.ns(self.visleafs),
+                    'props': [{'model': names.n(p_.model), 'leafs': N.ns(list(p_.visleafs))} for p_ in data]}
         if lump is BSP_LUMPS.MODELS:
             spawn = self.ents.spawn
             md = {}
@@ -172,6 +192,26 @@ def install(bsp, cfg):
             return {'bytes': list(out), 'tabs': {'texinfo': N.ns(self.texinfo), 'planes': N.ns(self.planes), 'surfedges': N.ns(self.surfedges)}}
         if req['op'] == 'x_water':
             return {'bytes': list(out), 'texinfo': N.ns(self.texinfo)}
+        if req['op'] == 'x_detail':
+            return {'bytes': list(out)}
+        if req['op'] == 'x_propidx':
+            import struct as _st
+            ver = self.static_prop_version
+            nmod = _st.unpack_from('<i', out, 0)[0]
+            mods = [out[4 + 128 * k: 4 + 128 * (k + 1)].rstrip(b'\0').decode('ascii', 'surrogateescape') for k in range(nmod)]
+            pos = 4 + 128 * nmod
+            nleaf = _st.unpack_from('<i', out, pos)[0]
+            code = self.lump_layout['STATICPROPLEAF'].format[1]
+            width = _st.calcsize('<' + code)
+            arr = list(_st.unpack_from('<%d%s' % (nleaf, code), out, pos + 4))
+            pos += 4 + width * nleaf
+            nprops = _st.unpack_from('<i', out, pos)[0]
+            pos += 4
+            recs = []
+            for k in range(nprops):
+                mi, first, count = _st.unpack_from('<HHH', out, pos + ver.size * k + 24)
+                recs.append([first, count, mi])
+            return {'recs': recs, 'leafArray': arr, 'models': [names.n(m) for m in mods], 'visleafs': N.ns(self.visleafs)}
         if req['op'] == 'x_bmodels':
             ents = req.pop('_ents')
             return {'idx': [int(e['model'][1:]) for e in ents], 'bytes': list(out), 'phys': L('PHYSCOLLIDE'),
@@ -210,7 +250,7 @@ def install(bsp, cfg):
                 out = b''.join(out)
             if req is not None:
                 try:
-                    log.append((lump.name if hasattr(lump, 'name') else str(lump), req, post(lump, self, data, req, out)))
+                    log.append((lump.name if hasattr(lump, 'name') else lump.decode('ascii'), req, post(lump, self, data, req, out)))
                 except Exception as e:
                     log.append(('capture-error', f'{lump}: {type(e).__name__}: {e}', None))
             return out
